@@ -85,12 +85,12 @@ Proof. intros [r|r]; reflexivity. Qed.
 
 (* one event: the monitor's knowledge stays coupled to the model *)
 Lemma R_step : forall st e ms, wf_event e -> Inv st -> R ms (g_mem st) ->
-  exists ms', mon_update true ms e (model_res e) = Some ms' /\ R ms' (g_mem (step st e)).
+  exists ms', mon_update ms e (model_res e) = Some ms' /\ R ms' (g_mem (step st e)).
 Proof.
   intros st e ms Hw Hi HR. pose proof (model_has_step st e) as Hstep.
   unfold mon_update. destruct (ev_op e) as [o|] eqn:Eo.
   - rewrite op_parts_eq. unfold wf_event in Hw. rewrite Eo in Hw.
-    rewrite (rid_of_rule_textual _ Hw). eexists. split; [reflexivity|].
+    rewrite (rid_of_rule_tid _ Hw). eexists. split; [reflexivity|].
     assert (Hw' : wf_event e) by (unfold wf_event; rewrite Eo; exact Hw).
     destruct e as [o'|o'|o'|o'|]; cbn in Eo; inversion Eo; subst o'; cbn [model_res].
     + apply (R_call ms (g_mem st)); [exact HR| | |discriminate].
@@ -270,12 +270,12 @@ Proof.
   rewrite peers_ok_model, addrs_ok_model, subnets_ok_model by assumption. reflexivity.
 Qed.
 
-(* THE theorem, under the code's reading of a subnet rule (identified by the
-   text IPNet.String() prints): for every history of calls, failures, process
-   stops and restarts the monitor accepts the model's trace *)
-Lemma monitor_text_model : forall prs h st ms i,
+(* THE theorem: for every history of calls, failed writes, process stops at both
+   points and restarts, and every probe set, the property monitor (a subnet rule
+   is identified by the set of its addresses) accepts the model's trace *)
+Lemma monitor_model : forall prs h st ms i,
   Forall wf_probe prs -> Forall wf_event h -> Inv st -> R ms (g_mem st) ->
-  monitor_trace true prs ms i (model_trace prs st h) = [].
+  monitor_trace prs ms i (model_trace prs st h) = [].
 Proof.
   intros prs h. induction h as [|e r IH]; intros st ms i Hp Hw Hi HR; cbn [model_trace monitor_trace]; [reflexivity|].
   inversion Hw as [|? ? He Hr]; subst.
@@ -284,51 +284,4 @@ Proof.
   pose proof (Inv_step st e He Hi) as Hi'.
   rewrite obs_check_model by (try assumption; apply Inv_mem_ok, Hi').
   apply IH; assumption.
-Qed.
-
-(* ---- the property's reading: a subnet is the set of its addresses ------------- *)
-Definition canonical_rule (r : rule) : Prop := rid_of_rule false r = rid_of_rule true r.
-
-Definition canonical_event (e : event) : Prop :=
-  match ev_op e with Some o => canonical_rule (op_rule o) | None => True end.
-
-Lemma mon_update_canon : forall ms e res, canonical_event e ->
-  mon_update false ms e res = mon_update true ms e res.
-Proof.
-  intros ms e res H. unfold mon_update, canonical_event in *. destruct (ev_op e) as [o|]; [|reflexivity].
-  rewrite op_parts_eq. unfold canonical_rule in H. rewrite H. reflexivity.
-Qed.
-
-Lemma monitor_canon : forall prs tr ms i, Forall canonical_event (map fst tr) ->
-  monitor_trace false prs ms i tr = monitor_trace true prs ms i tr.
-Proof.
-  intros prs tr. induction tr as [|[e x] r IH]; intros ms i H; cbn [monitor_trace]; [reflexivity|].
-  cbn in H. inversion H; subst. rewrite mon_update_canon by assumption.
-  destruct (mon_update true ms e (o_res x)); [|reflexivity].
-  destruct (obs_check m prs x); [apply IH; assumption|reflexivity].
-Qed.
-
-Lemma model_trace_events : forall prs h st, map fst (model_trace prs st h) = h.
-Proof. intros prs h. induction h as [|e r IH]; intros st; cbn; [reflexivity|]. rewrite IH. reflexivity. Qed.
-
-Lemma monitor_model_canonical : forall prs h,
-  Forall wf_probe prs -> Forall wf_event h -> Forall canonical_event h ->
-  monitor_trace false prs [] 0 (model_trace prs init_state h) = [].
-Proof.
-  intros prs h Hp Hw Hc. rewrite monitor_canon by (rewrite model_trace_events; exact Hc).
-  apply monitor_text_model; [assumption|assumption|apply Inv_init|apply R_nil].
-Qed.
-
-(* a subnet is canonical iff its host bits are zero *)
-Lemma canonical_snet : forall s, wf_snet s -> snet_key s <> None ->
-  (canonical_rule (RSubnet s) <->
-   let '(f, nn) := norm_ip (s_ip s) in clear_host f nn (eff_ones s) = nn).
-Proof.
-  intros s H Hk. unfold canonical_rule. cbn [rid_of_rule].
-  unfold snet_key in Hk. rewrite nn_and_mask_norm in Hk by assumption.
-  unfold denote, eff_ones, sub_id. rewrite norm_to4 in *.
-  destruct (to4 (s_ip s)); cbn in *.
-  - split; [intros E; inversion E; congruence|intros ->; reflexivity].
-  - destruct (s_m16 s); [|congruence].
-    split; [intros E; inversion E; congruence|intros ->; reflexivity].
 Qed.
